@@ -270,6 +270,17 @@ func (h *Hist) Exec(op Op) Op {
 		})
 		h.cur, op.Res = nil, res(err)
 		h.setCfg()
+	case "stakingparams":
+		// governance changes the staking UnbondingTime through the real MsgUpdateParams (entries created before keep
+		// their completion time, entries created afterwards get the new one)
+		sp, err := c.App.StakingKeeper.GetParams(c.Ctx)
+		lib.Must(err)
+		sp.UnbondingTime = time.Duration(op.Dt)
+		err = try(func(ctx sdk.Context) error {
+			_, e := sms.UpdateParams(ctx, &stakingtypes.MsgUpdateParams{Authority: authtypes.NewModuleAddress(govtypes.ModuleName).String(), Params: sp})
+			return e
+		})
+		h.cur, op.Res = nil, res(err)
 	case "exportimport":
 		// the chain is restarted from an exported genesis: real app-level export, a fresh application on an
 		// empty database, real InitChain. Only transactions can follow (no further blocks in this harness).
